@@ -30,7 +30,7 @@ THEOREMS = [
     'CC.C18_prefix_clamp', 'CC.C18_no_prefix', 'CC.C18_tables_admissible', 'CC.C18_tables_si',
     'CC.C18_display_ranges', 'CC.C18_display_args', 'CC.C18_defaults',
     'CC.C18_real_counterexample', 'CC.C18_rounds_up_to_one_text', 'CC.C18_complex_suppression_counterexample',
-    'CC.C18_zero_displayed_as_infinity', 'CC.C18_exponent_decade_partial', 'CC.C18_accuracy_positional',
+    'CC.C18_zero_never_infinity', 'CC.C18_exponent_decade_partial', 'CC.C18_accuracy_positional',
     'CC.C18_exponent_decade_small', 'CC.C18_exponent_decade_domain', 'CC.C18_accuracy_domain',
     'CC.C18_mantissa_range_domain', 'CC.C18_saturate_domain',
 ]
@@ -40,7 +40,8 @@ OPEN_STATEMENTS = [
     'saturation hold unconditionally there (C18_accuracy_domain, C18_mantissa_range_domain, C18_saturate_domain)',
     'CC.C18_render_statement (parseBack ∘ ScientificFloat.__str__ = mantissa3 · 10^exponent3)',
     'CC.C18_real_partial_statement (text-level C18 outside the rounds-up-to-one region)',
-    'CC.C18_real_statement is FALSE for the current code: CC.C18_real_counterexample',
+    'CC.C18_real_statement is FALSE for the current code: CC.C18_real_counterexample (open finding, not repaired: the '
+    "repository's own tests encode the behaviour)",
 ]
 ASSUMPTIONS = [
     'the model formats the exact rational value of the binary64 input; float arithmetic inside Utils.py '
@@ -367,7 +368,7 @@ def _angle_tie(ang, deg):
     x = abs(fr(ang)) * 10 ** nd
     return abs(abs(fr(ang)) - thr) <= thr * TIE * 2 ** 12 or abs(x - math.floor(x) - Fraction(1, 2)) < TIE
 
-def sinus_oracle(drv, s, z, unit, p, case, lo, hi):
+def sinus_oracle(drv, s, z, unit, p, case, lo, hi, mod_2pi=False):
     """amplitude·(sin|cos)([2π·]freq·t[±phase]) — the text must denote |z|·cos(w t + arg z)"""
     w, sin, deg, hertz = case['w'], case['sin'], case['deg'], case['hertz']
     fails = []
@@ -404,7 +405,10 @@ def sinus_oracle(drv, s, z, unit, p, case, lo, hi):
         val = abs(math.degrees(true_ph)) if deg else abs(true_ph)
         fl, _ = real_oracle(drv, val, p, 16, '°' if deg else '', ph[1:])
         fails += ['phase:' + x for x in fl]
-        if (sign == '+') != (true_ph > 0): fails.append('phase:sign')
+        if (sign == '+') != (true_ph > 0):
+            # a phase of +π and of −π denote the same time function (only when the phase comes from a solve)
+            if not (mod_2pi and abs(abs(true_ph) - math.pi) <= 1e-6):
+                fails.append('phase:sign')
     return fails, spec
 
 RUNNERS = {'sf': run_sf, 'sc': run_sc, 'display': run_display}
@@ -495,6 +499,9 @@ CORPUS = [
     dict(kind='sf', v=1.0, p=3, unit='F', use_prefix=True, table='farad'),
     dict(kind='sf', v=3e20, p=2, unit='V', use_prefix=False, table=None),
     dict(kind='sc', re=-0.99996, im=-0.99996, p=4, unit='V', use_prefix=True, table='uv', compact=True, polar=False, deg=False),
+    # former failing input (zero part displayed as ∞; repaired in /repo f0e8a34)
+    dict(kind='sc', re=0.0, im=5.40122566420661e-09, p=5, unit='F', use_prefix=True, table='farad', compact=False, polar=False, deg=False),
+    dict(kind='sc', re=0.0, im=-7.17451315804594e-08, p=6, unit='', use_prefix=True, table='henry', compact=True, polar=False, deg=False),
     dict(kind='sc', re=3.0, im=-4.0, p=3, unit='V', use_prefix=False, table=None, compact=False, polar=True, deg=True),
     dict(kind='sc', re=3.0, im=1e-9, p=3, unit='V', use_prefix=False, table=None, compact=False, polar=True, deg=False),
     dict(kind='display', fn='print_sinosoidal', re=3.0, im=4.0, p=3, unit='V', w=100.0, sin=True, deg=False, hertz=True),
